@@ -81,6 +81,7 @@ type ServerSide struct {
 	MiddlewareOps  int    `json:"middleware_calls"`
 	ServerSaw      string `json:"server_saw,omitempty"`
 	MiddlewareSaw  string `json:"middleware_saw,omitempty"`
+	ErrBody        string `json:"err_body,omitempty"`        // start of the body of a 4xx/5xx answer (diagnostics only)
 	Middleware2Saw string `json:"middleware2_saw,omitempty"` // operation name the second middleware of the chain was handed
 	SecurityCalls  int    `json:"security_calls"`
 	Allow          string `json:"allow,omitempty"`
@@ -95,6 +96,7 @@ type srvInfo struct {
 	St   *simrt.Stream
 	Side *ServerSide
 	Call *callInfo
+	Idx  int // which delivery of the call this is: 0 first attempt, 1 replayed attempt, 2 duplicate
 }
 
 func srvFrom(ctx context.Context) *srvInfo {
@@ -289,7 +291,7 @@ func (t *SimTransport) attempt(req *http.Request, ci *callInfo, name string, att
 	t.WG.Add(1)
 	go func() {
 		defer t.WG.Done()
-		t.serve(ctx, reqLink, respLink, side, ci, name+".srv"+sfx, kind, f)
+		t.serve(ctx, reqLink, respLink, side, min(attempt-1, 1), ci, name+".srv"+sfx, kind, f)
 		if kind == "dup" && dupBuf != nil {
 			// second delivery of the same bytes, to a server task of its own; its answer is discarded
 			<-writeDone
@@ -307,7 +309,7 @@ func (t *SimTransport) attempt(req *http.Request, ci *callInfo, name string, att
 				defer t.WG.Done()
 				_, _ = io.Copy(io.Discard, outl)
 			}()
-			t.serve(ctx, in, outl, side2, ci, name+".srv.dup", "", nil)
+			t.serve(ctx, in, outl, side2, 2, ci, name+".srv.dup", "", nil)
 			ci.Rec.fire()
 		}
 	}()
@@ -522,7 +524,7 @@ func (b *respBody) Close() error {
 }
 
 // serve parses one request from the link with net/http's own parser and runs the handler.
-func (t *SimTransport) serve(clientCtx context.Context, in, out *link, side *ServerSide, ci *callInfo, name, kind string, f *Fault) {
+func (t *SimTransport) serve(clientCtx context.Context, in, out *link, side *ServerSide, idx int, ci *callInfo, name, kind string, f *Fault) {
 	st := simrt.NewStream(name)
 	st.Yield()
 	br := bufio.NewReader(in)
@@ -541,7 +543,7 @@ func (t *SimTransport) serve(clientCtx context.Context, in, out *link, side *Ser
 	sctx, cancel := context.WithCancel(context.Background())
 	defer cancel()
 	ci.srvCancel.Store(&cancel)
-	sctx = context.WithValue(sctx, srvKey{}, &srvInfo{St: st, Side: side, Call: ci})
+	sctx = context.WithValue(sctx, srvKey{}, &srvInfo{St: st, Side: side, Call: ci, Idx: idx})
 	r = r.WithContext(sctx)
 	r.RemoteAddr = "sim:1"
 	w := &recWriter{side: side, out: out, h: http.Header{}, method: r.Method, st: st}
@@ -646,6 +648,9 @@ func (w *recWriter) Write(p []byte) (int, error) {
 	}
 	if w.noBody {
 		return 0, http.ErrBodyNotAllowed
+	}
+	if w.side.Status >= 400 && len(w.side.ErrBody) < 300 {
+		w.side.ErrBody += string(p[:min(len(p), 300-len(w.side.ErrBody))])
 	}
 	// deliver in pieces with yields in between, from a private copy taken piece by piece: a buffer that
 	// is reused under us becomes visible as corruption
